@@ -30,7 +30,7 @@ Expressions and values are ids; `World.key` is an ARBITRARY function (the two re
 `sha256 ∘ str` with a non-injective `str`, and the seeded `hash`, are instances: `World.ofHashes`).
 
 Variant switches (one per defect site): `storesKey` (record = (expr, result) instead of the bare
-result), `checksKey` (compare the stored expression), `atomic` (temp file + os.replace),
+result), `checksKey` (compare the stored expression with `World.keyEq`, the code's own `==`), `atomic` (temp file + os.replace),
 `tolerant` (any load failure is a miss), `tempPerCaller` (temp name contains an id that is
 unique among the concurrently running callers: `os.getpid()`).
 -/
@@ -85,6 +85,16 @@ inductive Name where
 structure World where
   key : Mode → Expr → Nat
   doit : Expr → Val
+  /-- `cached_key == expr` as the code evaluates it (`keyEq stored requested`): SymPy `==` of two
+  `@unevaluated` expressions is decided by `_hashable_content`, i.e. by how the decorator represents
+  non-SymPy attributes (`_get_hashable_object`).  It is a PARAMETER: it need be neither reflexive
+  (a bound method unpickled from the record is not `==` to the one in the request) nor injective
+  (classes are represented by their qualified name).  Default: identity of expressions. -/
+  keyEq : Expr → Expr → Bool := fun a b => a == b
+
+/-- The premise under which a key comparison may serve a stored record: it identifies two
+expressions only when their unfoldings agree. -/
+def World.KeyOk (w : World) : Prop := ∀ a b, w.keyEq a b = true → w.doit a = w.doit b
 
 /-- The two real key functions: `sha256(str(expr))` and `hash(expr)` under a fixed seed. -/
 def World.ofHashes (str : Expr → Nat) (sha : Nat → Nat) (pyhash : Nat → Expr → Nat)
@@ -174,12 +184,12 @@ def goto (s : State) (p : Nat) (c : PC) : State × Option Event :=
   (setPc s p c, none)
 
 /-- what the load step does with the object it got -/
-def afterLoad (v : Variant) (s : State) (p : Nat) (m : Mode) (e : Expr) :
+def afterLoad (w : World) (v : Variant) (s : State) (p : Nat) (m : Mode) (e : Expr) :
     Loaded → State × Option Event
   | .pair e' x =>
       if v.storesKey then
         if v.checksKey then
-          if e' = e then ret s p e (.value x) else goto s p (.willCompute m e)
+          if w.keyEq e' e then ret s p e (.value x) else goto s p (.willCompute m e)
         else ret s p e (.value x)
       else ret s p e .tuple
   | .bare x =>
@@ -211,7 +221,7 @@ def stepProc (w : World) (v : Variant) (s : State) (p : Nat) : State × Option E
       match s.fs.dir (finalName w m e) with
       | some h => goto s p (.willLoad m e h)
       | none => if v.tolerant then goto s p (.willCompute m e) else ret s p e .raised
-  | .willLoad m e h => afterLoad v s p m e (load (s.fs.ino h))
+  | .willLoad m e h => afterLoad w v s p m e (load (s.fs.ino h))
   | .willCompute m e =>
       let r := openTrunc s.fs (target w v m e p)
       (setPc { s with fs := r.1 } p (.writing m e r.2 0), none)
